@@ -46,7 +46,11 @@ def history_snapshots(case):
         elif k == "rem":
             spec["trans"] = [t for t in spec["trans"] if t != st[1:]]
         elif k == "start+":
-            if st[1] not in spec["starts"]:
+            if spec.get("kind") == "dfa":
+                spec["starts"] = [st[1]]
+                if st[1] not in spec["states"]:
+                    spec["states"].append(st[1])
+            elif st[1] not in spec["starts"]:
                 spec["starts"].append(st[1])
         elif k == "final+":
             if st[1] not in spec["finals"]:
@@ -84,6 +88,10 @@ def impl_history(case):
             fa.add_final_state(State(st[1]))
         elif k == "final-":
             fa.remove_final_state(State(st[1]))
+        elif k == "query" and case["op"] == "dfa_history":
+            other = falib.build_fa(case["fb"])
+            out.append({"min": falib.extract_fa(fa.minimize()), "eqv": bool(fa.is_equivalent_to(other)), "eqv2": bool(other == fa),
+                        "bits": [bool(fa.accepts(w)) for w in ws]})
         elif k == "query":
             q = {"bits": [bool(fa.accepts(w)) for w in ws], "empty": bool(fa.is_empty()),
                  "det": falib.extract_fa(fa.to_deterministic()), "noeps": falib.extract_fa(fa.remove_epsilon_transitions()),
@@ -94,7 +102,7 @@ def impl_history(case):
 
 def impl_case(case):
     op = case["op"]
-    if op == "edit_history":
+    if op in ("edit_history", "dfa_history"):
         return impl_history(case)
     fa = falib.build_fa(case["fa"])
     if op == "accepts":
@@ -218,6 +226,17 @@ def coq_expr(case, obs):
     """Coq expression (type depends on op) for one case, or None when there is nothing to evaluate."""
     op = case["op"]
     si = falib.Interner()
+    if op == "dfa_history":
+        if "queries" not in obs:
+            return None
+        items = []
+        ws = cq([[si(a) for a in w] for w in history_words(case)])
+        B = falib.coq_enfa(case["fb"], si)
+        for snap, q in zip(history_snapshots(case), obs["queries"]):
+            A = falib.coq_enfa(snap, si)
+            M = falib.coq_enfa(q["min"], si)
+            items.append("(map (accepts %s) %s, enfa_equiv %s %s FUEL, judge %s %s, dfa_b %s && is_reduced_b %s FUEL)" % (A, ws, A, B, A, M, M, M))
+        return "[" + "; ".join(items) + "]"
     if op == "edit_history":
         if "queries" not in obs:
             return None
@@ -282,6 +301,23 @@ def judge_case(ctx, case, obs, mv):
         return
     if "exc" in obs:
         ctx.fail(op + "-exception", case, {"impl": obs})
+        return
+    if op == "dfa_history":
+        ctx.count(len(mv))
+        for i, (m, q) in enumerate(zip(mv, obs["queries"])):
+            bits, eqv, jm, red = m
+            bad = None
+            if bits != q["bits"]:
+                bad = "accepts"
+            elif eqv is not None and (eqv[1] != q["eqv"] or eqv[1] != q["eqv2"]):
+                bad = "is_equivalent_to"
+            elif jm not in ("VEq", "VFuel"):
+                bad = "minimize-language"
+            elif not red:
+                bad = "minimize-not-reduced"
+            if bad:
+                ctx.fail("history-" + bad, case, {"query_index": i, "hashseed": obs.get("_hs")})
+                return
         return
     if op == "edit_history":
         ctx.count(len(mv))
@@ -435,9 +471,39 @@ def rand_history(rng, nsteps=None):
     return {"op": "edit_history", "fa": base, "steps": steps, "maxlen": 3}
 
 
+def rand_dfa_history(rng):
+    """Edit stream on a live DFA (transitions, start state replaced or removed, final states) with minimize / equivalence queries after every edit."""
+    base = falib.rand_fa(rng, kind="dfa", names="plain", max_states=4, max_syms=2)
+    base["symbols"] = ["a", "b"]
+    states = list(base["states"])
+    other = falib.rand_fa(rng, names="plain", max_states=3, max_syms=2)
+    if rng.random() < 0.5:
+        other = dict(base, kind="enfa")           # equal at the beginning, so that edits flip the verdict
+    cur = {(t[0], t[1]): t[2] for t in base["trans"]}
+    steps = [["query"]]
+    for _ in range(rng.randint(2, 6)):
+        r = rng.random()
+        if r < 0.3:
+            s_, a_ = rng.choice(states), rng.choice(["a", "b"])
+            if (s_, a_) not in cur:
+                t_ = rng.choice(states)
+                cur[(s_, a_)] = t_
+                steps.append(["add", s_, a_, t_])
+            else:
+                steps.append(["rem", s_, a_, cur.pop((s_, a_))])
+        elif r < 0.65:
+            steps.append(["start+", rng.choice(states)])
+        elif r < 0.75:
+            steps.append(["start-", rng.choice(states)])
+        else:
+            steps.append([rng.choice(["final+", "final-"]), rng.choice(states)])
+        steps.append(["query"])
+    return {"op": "dfa_history", "fa": base, "fb": other, "steps": steps, "maxlen": 3}
+
+
 def shrink_candidates(case):
     """Smaller variants of a case: drop one transition / state / start / final, shorten words."""
-    if case["op"] == "edit_history":
+    if case["op"] in ("edit_history", "dfa_history"):
         st = case["steps"]
         for i in range(len(st)):
             if st[i][0] != "query":
